@@ -10,8 +10,12 @@ values the real per-group generators returned *in that very call* (a spy on `mak
 not need the markers; the written file (when `fname` is given) against the returned table; for polygon, multi-polygon and
 GeoJSON groups the position of a row against the group's own location (exact rational point-in-polygon of `geom`, no /repo
 code), and for GeoJSON groups the feature properties of a row against the properties of the one feature whose polygon
-contains the row's position (the spy cannot see this: position and properties come out of the same `get_location` call)."""
-import importlib, io, json, os, shutil, tempfile
+contains the row's position (the spy cannot see this: position and properties come out of the same `get_location` call).
+A second family of cases (`build_reuse_config` / `_run_reuse`) uses configuration *objects more than once*: 1..3 consecutive
+calls on the same python configuration object, one group mapping listed several times in the group list, `attrs` / location /
+date objects shared by different groups, and the same written as yaml text (anchors / aliases) handed over as stream or file
+name.  Every call is judged by the same oracles (`judge`) against a deep copy of the content taken before the first call."""
+import copy, importlib, io, json, os, shutil, tempfile
 from collections import Counter
 import numpy as np
 from .common import Driver, I, unF, RngRecorder, same_bits
@@ -34,8 +38,20 @@ RULE = ("1..6 groups; num in {0,1,2,3,5,12,40} (int or numpy integer); location 
         "within one location (or all unit squares: equal triangle areas), geometry Polygon / MultiPolygon in any letter case, every "
         "feature with a distinct `farm_id` (int, x.5 float, rarely a text) in shuffled order and/or region / farmid / name / w "
         "properties, features without `properties` / with `properties: null` / with `{}`, the layer alone or first in a list of "
-        "layers; a GeoJSON location is handed over as a stream or (40 %) as the name of a UTF-8 file. Non-trivial: total num >= 1.")
-ASSUMPTIONS = ["rows with equal date strings are compared as multisets (pandas' quicksort is unstable)"]
+        "layers; a GeoJSON location is handed over as a stream or (40 %) as the name of a UTF-8 file. Non-trivial: total num >= 1. "
+        "Second family (60 / 1000 plans, objects used more than once): 1..4 distinct group mappings generated as above with num in {0,1,2,3,5,12} (or, for a "
+        "third of the plans, from plain yaml-representable values), with probability 0.6 one to three extra listings of some of "
+        "them in the group list (the same mapping object up to 4 times), 30 % of the later groups share the `attrs` mapping object "
+        "of an earlier group (same num; markers implicit), 25 % its location object, 25 % its date object; flat (single listing "
+        "only) / list / grouped containers, seed / columns as above; python plans: 1..3 consecutive calls of make_release on the "
+        "very same configuration object (each call with or without `fname`; a GeoJSON stream is replaced by a fresh stream in the "
+        "same group mapping before each call, a mapping listed twice names a GeoJSON file), at least one thing used twice in "
+        "every python plan; yaml plans: the configuration dumped by yaml.safe_dump (key order kept, block or flow style; shared "
+        "objects become anchor / alias and are one object again after loading), handed over as a stream or as a file name, 1..2 calls.")
+ASSUMPTIONS = ["rows with equal date strings are compared as multisets (pandas' quicksort is unstable)",
+               "a configuration in which one mapping object occurs several times (python [g, g], yaml alias) means its content "
+               "written out: a group mapping listed m times is m groups of that content; handing the same configuration "
+               "object to make_release again is again a call on that content"]
 SITE = "ladim_plugins/release/makrel.py::make_release"
 SPECIAL = ["num", "date", "location", "attrs"]
 
@@ -79,6 +95,86 @@ def build_config(rng):
             rng.shuffle(cols)
             glob["columns"] = cols
     return groups, forms, container, glob, deliver, layout
+
+
+def _markers_implicit(conf):
+    """the oracle's markers of a group as implicit attributes (out of the `attrs` mapping)"""
+    ex = conf.get("attrs")
+    if isinstance(ex, dict):
+        for k in ("grp", "tag"):
+            if k in ex:
+                conf[k] = ex.pop(k)
+
+
+def build_reuse_config(rng):
+    """Configurations in which *objects are used more than once* - the same configuration object handed to
+    `make_release` again (e.g. once for the table in memory, once to write the file), one group mapping listed several
+    times in the group list (python `[g, g]`, a yaml alias `- *g`: the loader returns one shared mapping), and parts shared
+    between different groups (one `attrs` mapping, one location object, one date object: `attrs: *common`).  The meaning of
+    such a configuration is that of its content written out: a mapping listed m times is m groups of that content.
+    Returns a plan: the distinct group mappings, the group list as indices into them (`slots`), container, global keys,
+    number of consecutive calls, and how the configuration is delivered (python object / yaml text as stream or file)."""
+    mode = rng.choice(["python", "python", "yaml"])
+    rich = mode == "python"                      # yaml text holds plain lists / numbers / strings only
+    ng = rng.randrange(1, 5)
+    groups = []; forms = []; layout = {}; shared = []
+    for g in range(ng):
+        a_attrs = rng.randrange(g) if g > 0 and rng.random() < 0.3 else None
+        # value lists of a shared `attrs` mapping have one length: the groups sharing it have the same num
+        # (num from the smaller counts: a mapping may be listed up to 4 times and is judged in up to 3 calls)
+        force = groups[a_attrs]["num"] if a_attrs is not None else rng.choice([0, 1, 2, 3, 5, 12])
+        form, conf = relgen.gen_group(rng, g, yamlable=not rich, force_num=force, rich=rich)
+        if not rich and rng.random() < 0.5:
+            _markers_implicit(conf)
+            if not conf["attrs"] and rng.random() < 0.5:
+                del conf["attrs"]
+        if g > 0 and rng.random() < 0.25:
+            conf["date"] = groups[rng.randrange(g)]["date"]; shared.append(("date", g))
+        if g > 0 and rng.random() < 0.25:
+            a = rng.randrange(g)
+            conf["location"] = groups[a]["location"]; form = forms[a]; shared.append(("location", a, g))
+            if layout.get(a): layout[g] = True
+        elif rng.random() < (0.6 if form == "geojson" else 0.12):
+            form = "geojson"; conf["location"] = gen_feature_location(rng); layout[g] = True
+        if a_attrs is not None:
+            # the markers tell the groups apart: they stay outside the shared mapping
+            _markers_implicit(groups[a_attrs]); _markers_implicit(conf)
+            if not groups[a_attrs].get("attrs"):
+                groups[a_attrs]["attrs"] = dict(q=rng.choice([1.5, 7, -2]))
+            conf["attrs"] = groups[a_attrs]["attrs"]; shared.append(("attrs", a_attrs, g))
+        groups.append(conf); forms.append(form)
+    slots = list(range(ng))
+    if rng.random() < 0.6:
+        for _ in range(rng.choice([1, 1, 2, 3])):
+            slots.insert(rng.randrange(len(slots) + 1), rng.randrange(ng))
+    container = rng.choice(["flat", "list", "grouped"]) if len(slots) == 1 else rng.choice(["list", "grouped", "grouped"])
+    glob = {}
+    if container != "list":
+        if rng.random() < 0.5:
+            glob["seed"] = rng.randrange(1000) if rng.random() >= 0.05 else 0
+        if rng.random() < 0.5:
+            allc = ["date", "longitude", "latitude", "depth", "grp", "tag"]
+            extra = sorted(attr_names(groups) - set(allc))
+            if rng.random() < 0.6:
+                cols = allc + rng.sample(extra, rng.randrange(0, len(extra) + 1))
+            else:
+                pool = allc + extra
+                cols = rng.sample(pool, rng.randrange(1, len(pool) + 1))
+            rng.shuffle(cols)
+            glob["columns"] = cols
+    ncalls = rng.choice([1, 2, 2, 3]) if rich else rng.choice([1, 2])
+    if rich and ncalls == 1 and len(slots) == ng and not shared:
+        ncalls = 2                               # something is used twice in every python-object plan
+    mult = Counter(slots)
+    deliver = {}
+    for g in range(ng):
+        if forms[g] == "geojson":
+            # a stream can be read once: a mapping listed twice, and every yaml text, names a file
+            deliver[g] = "file" if (not rich or mult[g] > 1 or rng.random() < 0.5) else "stream"
+    how = "object" if rich else rng.choice(["yaml.stream", "yaml.file"])
+    return dict(mode=mode, groups=groups, forms=forms, layout=layout, shared=shared, slots=slots, container=container,
+                glob=glob, ncalls=ncalls, deliver=deliver, how=how,
+                yaml_style=dict(default_flow_style=rng.choice([None, False, True]), allow_unicode=rng.random() < 0.5))
 
 
 GRID_STEP = 3.0          # feature-layout polygons sit in separate 3 x 3 degree cells; every polygon stays within 1.3 of its cell centre
@@ -296,7 +392,7 @@ class Spy:
         self.saved = {n: getattr(mk, n) for n in self.NAMES}
 
         def msr(conf, *a, **k):
-            rec = dict(conf=conf, date=None, loc=None, attrs=None); spy.recs.append(rec)
+            rec = dict(conf=conf, date=None, loc=None, attrs=None, marker=spy.marker_of(conf)); spy.recs.append(rec)
             prev, spy.cur = spy.cur, rec
             try:
                 return spy.saved["make_single_release"](conf, *a, **k)
@@ -329,6 +425,46 @@ class Spy:
             setattr(self.mk, n, f)
         return False
 
+    @staticmethod
+    def marker_of(conf):
+        """the group marker `grp` of a group mapping (None if it has none); read when the group is handed over"""
+        try:
+            return conf.get("attrs", {}).get("grp", conf.get("grp")) if isinstance(conf.get("attrs", {}), dict) else conf.get("grp")
+        except Exception:
+            return None
+
+    @staticmethod
+    def values_of(rec):
+        # the values of a particle: its date, what comes with its location, its attributes (see by_group)
+        if rec["date"] is None or rec["loc"] is None or rec["attrs"] is None:
+            return None
+        e = dict(date=rec["date"]); e.update(rec["loc"]); e.update(rec["attrs"])
+        return e
+
+    def by_slots(self, groups, slots):
+        """as by_group for a configuration whose group list is `slots` (indices into `groups`; a group mapping may be
+        listed several times): position in the list -> the values generated for that group.  A record is recognised by
+        the marker its mapping had when it was handed over; the records of one mapping listed m times are m groups of
+        identical content, so they are assigned to its m positions in call order.  More records than positions for a
+        mapping, or an incomplete record: None for the positions concerned (nothing to compare with)."""
+        out = {}; free = {}
+        for k, g in enumerate(slots):
+            free.setdefault(g, []).append(k)
+        for rec in self.recs:
+            try:
+                g = int(rec.get("marker")) - 1
+            except Exception:
+                continue
+            if g not in free:
+                continue
+            if not free[g]:
+                for k, g2 in enumerate(slots):
+                    if g2 == g:
+                        out[k] = None
+                continue
+            out[free[g].pop(0)] = self.values_of(rec)
+        return out
+
     def by_group(self, groups):
         """group index -> the values generated for it: column name -> list (None if the record is incomplete).
         A group is recognised by its marker attribute, not by the order of the calls."""
@@ -336,7 +472,9 @@ class Spy:
         for rec in self.recs:
             conf = rec["conf"]
             try:
-                m = conf.get("attrs", {}).get("grp", conf.get("grp")) if isinstance(conf.get("attrs", {}), dict) else conf.get("grp")
+                m = rec.get("marker")
+                if m is None:
+                    m = conf.get("attrs", {}).get("grp", conf.get("grp")) if isinstance(conf.get("attrs", {}), dict) else conf.get("grp")
                 g = int(m) - 1
             except Exception:
                 continue
@@ -447,6 +585,207 @@ def check_file(ctx, fname, res, hdr, nrows, total, cs):
     ctx.oracle(True, "C01.file.row_integrity", SITE, "", cs)
 
 
+def judge(ctx, mk, res, spy, groups, forms, glob, fname, total, cs, gj, slots=None):
+    """every implementation-side oracle of the property on one returned table `res`.
+    `groups`: the distinct group mappings as the user wrote them; `slots`: the configuration's group list as indices
+    into `groups` (None: each once, in order) - an index that occurs m times is one group mapping listed m times, i.e.
+    m groups of identical content (each contributes its own `num` rows with that content)."""
+    slots = list(range(len(groups))) if slots is None else list(slots)
+    mult = Counter(slots)
+    lgroups = [groups[s] for s in slots]                 # the groups of the configuration, in its order
+    hdr = list(res.keys())
+    nrows = len(res["date"]) if "date" in res else (len(next(iter(res.values()))) if res else 0)
+    ctx.oracle(nrows == total, "C01.row_count", SITE, "%d rows for sum(num)=%d" % (nrows, total), cs)
+    ctx.oracle(all(len(v) == nrows for v in res.values()), "C01.columns_unequal", SITE, "columns of different length", cs)
+    if "columns" in glob:
+        ctx.oracle(hdr == glob["columns"], "C01.columns_requested", SITE, "header %r, requested %r" % (hdr, glob["columns"]), cs)
+    else:
+        ctx.oracle(hdr[:4] == ["date", "longitude", "latitude", "depth"], "C01.columns_default", SITE, "header %r" % (hdr,), cs)
+    names = attr_names(groups)
+    if "columns" not in glob:
+        # "date, longitude, latitude, depth followed by the attributes": nothing missing, nothing else
+        wantset = {"date", "longitude", "latitude", "depth"} | names
+        ctx.oracle(set(hdr) == wantset and len(hdr) == len(wantset), "C01.columns_default_set", SITE,
+                   "header %r: missing %r, unexpected %r" % (hdr, sorted(wantset - set(hdr)), sorted(set(hdr) - wantset)), cs)
+    if nrows == total and all(len(v) == nrows for v in res.values()):
+        # gen: position in the configuration's group list -> the values generated for that group in this call
+        gen = spy.by_group(groups) if slots == list(range(len(groups))) else spy.by_slots(groups, slots)
+        seen = check_rows(ctx, res, hdr, nrows, lgroups, gen, cs)
+        # position <-> feature properties inside one particle's values.  (a) on what the location reader handed over
+        # in this very call (check_rows above ties these values to the rows, whatever the columns), ...
+        for k, g in enumerate(slots):
+            if g not in gj:
+                continue
+            flat = gj[g]
+            e = gen.get(k); n = int(groups[g]["num"])
+            if e is None or n == 0 or any(len(e[k2]) != n for k2 in e):
+                continue
+            check_feature_join(ctx, g, groups[g], flat,
+                               [(i, e["longitude"][i], e["latitude"][i], {k: e[k][i] for k in e}) for i in range(n)],
+                               "values generated for the group", cs)
+        # ... (b) on the rows of the table itself, when they show position and group
+        if "grp" in res and "longitude" in res and "latitude" in res:
+            for g, flat in gj.items():
+                rows = [r for r in range(nrows) if res["grp"][r] == g + 1]
+                check_feature_join(ctx, g, groups[g], flat,
+                                   [(r, res["longitude"][r], res["latitude"][r], {k: res[k][r] for k in hdr}) for r in rows],
+                                   "table", cs)
+        if seen is None:
+            ctx.branch("spy.incomplete")
+            if not getattr(ctx, "_c01_spy_note", False):
+                ctx._c01_spy_note = True
+                ctx.note("C01: make_release no longer goes through make_single_release / date_range / get_location / get_attrs for every group; "
+                         "the multiset row oracle had nothing to compare with")
+    if fname:
+        check_file(ctx, fname, res, hdr, nrows, total, cs)
+    if "grp" in res and "tag" in res and nrows == total:
+        grp = np.array(res["grp"]); tag = np.array(res["tag"])
+        for g, conf in enumerate(groups):
+            cnt = int(np.sum(grp == g + 1)); m = mult[g]
+            ctx.oracle(cnt == m * conf["num"], "C01.group_count", SITE, "group %d%s contributed %d rows, num=%d" % (
+                g, "" if m == 1 else " (listed %d times: %d groups of this content)" % (m, m), cnt, conf["num"]), dict(cs, group=g))
+            # row integrity: the tag identifies (group, particle)
+            mconf = relgen.materialise(conf)
+            exp_dates = None
+            try:
+                exp_dates = mk.date_range(conf["date"], conf["num"])
+            except Exception:
+                pass
+            alln = set(k for k in list(conf.keys()) + list(conf.get("attrs", {}).keys())) - set(SPECIAL)
+            gjp = relgen.geojson_props(conf)
+            polys_g = own_polys(forms[g], conf)
+            for i in range(conf["num"]):
+                rows = np.flatnonzero(tag == g * 1000000 + i)
+                ok = len(rows) == m and all(grp[r] == g + 1 for r in rows)
+                ctx.oracle(ok, "C01.row_integrity", SITE, "tag of particle %d of group %d appears %d times%s / in another group's row" % (
+                    i, g, len(rows), "" if m == 1 else " (the group is listed %d times)" % m), dict(cs, group=g, particle=i))
+                if not ok:
+                    continue
+                for r in rows:                  # one row, or one row per listing of the group
+                    if exp_dates is not None and "date" in res:
+                        ctx.oracle(res["date"][r] == exp_dates[i], "C01.row_integrity", SITE,
+                                   "particle %d of group %d has date %r, its release time is %r" % (i, g, res["date"][r], exp_dates[i]), dict(cs, group=g, particle=i))
+                    if forms[g] == "point" and ("longitude" in res or "latitude" in res):
+                        # (a `columns` selection may hold only one of the two coordinates)
+                        ctx.oracle(("longitude" not in res or res["longitude"][r] == conf["location"][0]) and
+                                   ("latitude" not in res or res["latitude"][r] == conf["location"][1]),
+                                   "C01.row_integrity", SITE, "particle of a point group has another position", dict(cs, group=g, particle=i))
+                    if polys_g is not None and "longitude" in res and "latitude" in res:
+                        # the position in the row of a particle of group g is a position of group g: inside (or, within
+                        # 1e-11 * coordinate magnitude, on) one of the polygons of its location - same exact test and
+                        # tolerance as in check_feature_join
+                        x, y = res["longitude"][r], res["latitude"][r]
+                        ctx.oracle(any(geom.inside_tol(q, x, y) for q in polys_g), "C01.row_integrity.position_of_other_location", SITE,
+                                   "particle %d of %s group %d has position (lon %r, lat %r), outside every polygon of its group's location" % (
+                                       i, forms[g], g, x, y), dict(cs, group=g, particle=i))
+                    for nm in ("depth", "w", "age", "stage", "id2", "len", "q", "label", "flag", "name", "region", "farmid"):
+                        if nm not in res:
+                            continue
+                        spec = conf.get("attrs", {}).get(nm, conf.get(nm, None))
+                        if spec is None and nm in gjp:
+                            continue        # comes with this group's location (checked by C03 and by check_rows)
+                        if spec is None:
+                            want = 0.0 if nm != "depth" else 0.0
+                            ctx.oracle(res[nm][r] == want, "C01.missing_attr_not_zero", SITE,
+                                       "group %d does not define %s but its particle has %r" % (g, nm, res[nm][r]), dict(cs, group=g, particle=i))
+                        elif isinstance(spec, (list, tuple, np.ndarray)) and len(spec) == conf["num"] and not (len(spec) == 2 and conf["num"] != 2):
+                            ctx.oracle(res[nm][r] == spec[i], "C01.row_integrity", SITE,
+                                       "attribute %s of particle %d of group %d is %r, given %r" % (nm, i, g, res[nm][r], spec[i]), dict(cs, group=g, particle=i))
+                        elif not isinstance(spec, (list, tuple, np.ndarray, dict, str)) and not callable(spec):
+                            ctx.oracle(res[nm][r] == spec, "C01.row_integrity", SITE, "constant attribute %s changed" % nm, dict(cs, group=g, particle=i))
+
+
+def _run_reuse(ctx, mk, drv, pend, tmp):
+    """objects used more than once (see build_reuse_config).  Every call is judged by `judge` against the content of
+    the configuration as it was written (a deep copy taken before anything is handed over); the correspondence with
+    the Lean table model is asked for the written-out configuration (one group per listing)."""
+    import yaml
+    for c in range(ctx.n(60, 1000)):
+        plan = build_reuse_config(ctx.rng)
+        groups = copy.deepcopy(plan["groups"])            # the reference: what the user wrote
+        forms, slots, container, glob, deliver = plan["forms"], plan["slots"], plan["container"], plan["glob"], plan["deliver"]
+        glob_ref = copy.deepcopy(glob)
+        lgroups = [groups[s] for s in slots]
+        mult = Counter(slots)
+        total = int(sum(g["num"] for g in lgroups))
+        stem = os.path.join(tmp, "reuse%d" % c)
+        # the configuration object: built once; a mapping listed twice is the same object twice, shared parts stay shared
+        gs = [materialise(conf, deliver.get(g), "%s_g%d.geojson" % (stem, g)) for g, conf in enumerate(plan["groups"])]
+        glist = [gs[s] for s in slots]
+        if container == "flat":
+            wconf = dict(gs[0]); wconf.update(glob); streams_in = {0: wconf}
+        else:
+            wconf = glist if container == "list" else dict(glob, groups=glist); streams_in = dict(enumerate(gs))
+        text = None
+        if plan["mode"] == "yaml":
+            # shared objects are written as anchor / alias by the dumper; the loader hands them out as one object again
+            text = yaml.safe_dump(wconf, sort_keys=False, **plan["yaml_style"])     # key order as written: it is the attribute order
+            try:
+                back = yaml.safe_load(text)
+                bl = back if isinstance(back, list) else back.get("groups", [back])
+                same = back == wconf and all((bl[i] is bl[j]) == (slots[i] == slots[j]) for i in range(len(bl)) for j in range(i))
+            except Exception:
+                same = False
+            if not same:
+                ctx.branch("reuse.yaml.roundtrip_differs_skipped"); continue
+            if len(slots) > len(groups) or plan["shared"]:
+                ctx.branch("reuse.yaml.alias" if "*id" in text else "reuse.yaml.shared_scalars_only")
+            if plan["how"] == "yaml.file":
+                with open(stem + ".yaml", "w", encoding="utf8") as fh:
+                    fh.write(text)
+        gj = {g: feature_polys(groups[g]["location"]) for g in range(len(groups)) if forms[g] == "geojson"}
+        for k in range(plan["ncalls"]):
+            seed = ctx.sub_seed()
+            fname = os.path.join(tmp, "reuse%d_call%d.rls" % (c, k)) if ctx.rng.random() < 0.3 else None
+            cs = dict(container=container, glob=glob_ref, forms=forms, fname=bool(fname), deliver=deliver,
+                      reuse=dict(delivered_as=plan["how"], group_list=slots, shared=plan["shared"], call=k + 1, of_calls_on_the_same_object=plan["ncalls"],
+                                 yaml=text),
+                      groups=[{kk: (v if not callable(v) else "<callable>") for kk, v in g.items()} for g in groups])
+            ctx.case(key=repr(cs), nontrivial=total > 0, sample=dict(container=container, forms=forms, nums=[g["num"] for g in groups], glob=glob_ref, reuse=dict(cs["reuse"], yaml=None)) if c < 2 and k == 0 else None)
+            for f in forms: ctx.branch("form." + f)
+            ctx.branch("container." + container); ctx.branch("columns" if "columns" in glob_ref else "default_columns"); ctx.size("groups", len(slots))
+            ctx.branch("reuse.delivered_as." + plan["how"]); ctx.branch("reuse.container." + container)
+            ctx.size("reuse.calls_on_same_object", plan["ncalls"]); ctx.size("reuse.max_listings_of_one_group", max(mult.values()))
+            if k > 0: ctx.branch("reuse.later_call_on_same_object")
+            if k > 0 and fname: ctx.branch("reuse.later_call_writes_file")
+            if len(slots) > len(groups): ctx.branch("reuse.group_listed_more_than_once")
+            for sh in plan["shared"]: ctx.branch("reuse.shared_" + sh[0])
+            if fname: ctx.branch("fname")
+            for g, how in deliver.items(): ctx.branch("geojson.deliver." + how)
+            # the class the property's row / column clauses had never seen: a group mapping *with an explicit attrs block*
+            # that is processed again as the same object (a later call on a list / grouped object, or a second listing)
+            again = [g for g in range(len(groups)) if groups[g].get("attrs") and (mult[g] > 1 or (k > 0 and container != "flat" and plan["mode"] == "python"))]
+            if again:
+                ctx.branch("reuse.explicit_attrs_group_processed_again")
+            for g, conf in enumerate(groups):
+                ctx.branch("markers.explicit" if "grp" in conf.get("attrs", {}) else "markers.implicit")
+                if "attrs" not in conf: ctx.branch("group.no_attrs_mapping")
+            # a stream can be read once: before every call a fresh one is put into the same group mapping
+            for g, how in deliver.items():
+                if how == "stream" and g in streams_in:
+                    streams_in[g]["location"] = io.StringIO(groups[g]["location"])
+            if plan["mode"] == "yaml":
+                arg = stem + ".yaml" if plan["how"] == "yaml.file" else io.StringIO(text)
+            else:
+                arg = wconf
+            try:
+                with Spy(mk) as spy:
+                    with RngRecorder(seed) as rec:
+                        res = mk.make_release(arg, fname) if fname else mk.make_release(arg)
+            except Exception as e:
+                ctx.oracle(False, "C01.make_release.raises", SITE, "valid configuration raised %r (call %d on the same configuration object, group list %r)" % (
+                    e, k + 1, slots), cs)
+                break
+            judge(ctx, mk, res, spy, groups, forms, glob_ref, fname, total, cs, gj, slots)
+            if drv.available:
+                try:
+                    ps = pieces(mk, lgroups, glob_ref, seed)
+                except Exception as e:
+                    ctx.disagreement("make_release.pieces", "replaying the group generators raised %r" % (e,), cs); continue
+                j = drv.ask("table.make", table_toks(ps, glob_ref.get("columns")))
+                pend.append((j, res, cs))
+
+
 def run(ctx):
     tmp = tempfile.mkdtemp(prefix="verif_c01_")
     try:
@@ -516,100 +855,7 @@ def _run(ctx, tmp):
         except Exception as e:
             ctx.oracle(False, "C01.make_release.raises", SITE, "valid configuration raised %r" % (e,), cs)
             continue
-        hdr = list(res.keys())
-        nrows = len(res["date"]) if "date" in res else (len(next(iter(res.values()))) if res else 0)
-        ctx.oracle(nrows == total, "C01.row_count", SITE, "%d rows for sum(num)=%d" % (nrows, total), cs)
-        ctx.oracle(all(len(v) == nrows for v in res.values()), "C01.columns_unequal", SITE, "columns of different length", cs)
-        if "columns" in glob:
-            ctx.oracle(hdr == glob["columns"], "C01.columns_requested", SITE, "header %r, requested %r" % (hdr, glob["columns"]), cs)
-        else:
-            ctx.oracle(hdr[:4] == ["date", "longitude", "latitude", "depth"], "C01.columns_default", SITE, "header %r" % (hdr,), cs)
-        names = attr_names(groups)
-        if "columns" not in glob:
-            # "date, longitude, latitude, depth followed by the attributes": nothing missing, nothing else
-            wantset = {"date", "longitude", "latitude", "depth"} | names
-            ctx.oracle(set(hdr) == wantset and len(hdr) == len(wantset), "C01.columns_default_set", SITE,
-                       "header %r: missing %r, unexpected %r" % (hdr, sorted(wantset - set(hdr)), sorted(set(hdr) - wantset)), cs)
-        if nrows == total and all(len(v) == nrows for v in res.values()):
-            gen = spy.by_group(groups)
-            seen = check_rows(ctx, res, hdr, nrows, groups, gen, cs)
-            # position <-> feature properties inside one particle's values.  (a) on what the location reader handed over
-            # in this very call (check_rows above ties these values to the rows, whatever the columns), ...
-            for g, flat in gj.items():
-                e = gen.get(g); n = int(groups[g]["num"])
-                if e is None or n == 0 or any(len(e[k]) != n for k in e):
-                    continue
-                check_feature_join(ctx, g, groups[g], flat,
-                                   [(i, e["longitude"][i], e["latitude"][i], {k: e[k][i] for k in e}) for i in range(n)],
-                                   "values generated for the group", cs)
-            # ... (b) on the rows of the table itself, when they show position and group
-            if "grp" in res and "longitude" in res and "latitude" in res:
-                for g, flat in gj.items():
-                    rows = [r for r in range(nrows) if res["grp"][r] == g + 1]
-                    check_feature_join(ctx, g, groups[g], flat,
-                                       [(r, res["longitude"][r], res["latitude"][r], {k: res[k][r] for k in hdr}) for r in rows],
-                                       "table", cs)
-            if seen is None:
-                ctx.branch("spy.incomplete")
-                if not getattr(ctx, "_c01_spy_note", False):
-                    ctx._c01_spy_note = True
-                    ctx.note("C01: make_release no longer goes through make_single_release / date_range / get_location / get_attrs for every group; "
-                             "the multiset row oracle had nothing to compare with")
-        if fname:
-            check_file(ctx, fname, res, hdr, nrows, total, cs)
-        if "grp" in res and "tag" in res and nrows == total:
-            grp = np.array(res["grp"]); tag = np.array(res["tag"])
-            for g, conf in enumerate(groups):
-                cnt = int(np.sum(grp == g + 1))
-                ctx.oracle(cnt == conf["num"], "C01.group_count", SITE, "group %d contributed %d rows, num=%d" % (g, cnt, conf["num"]), dict(cs, group=g))
-                # row integrity: the tag identifies (group, particle)
-                mconf = relgen.materialise(conf)
-                exp_dates = None
-                try:
-                    exp_dates = mk.date_range(conf["date"], conf["num"])
-                except Exception:
-                    pass
-                alln = set(k for k in list(conf.keys()) + list(conf.get("attrs", {}).keys())) - set(SPECIAL)
-                gjp = relgen.geojson_props(conf)
-                polys_g = own_polys(forms[g], conf)
-                for i in range(conf["num"]):
-                    rows = np.flatnonzero(tag == g * 1000000 + i)
-                    ok = len(rows) == 1 and grp[rows[0]] == g + 1
-                    ctx.oracle(ok, "C01.row_integrity", SITE, "tag of particle %d of group %d appears %d times / in another group's row" % (i, g, len(rows)), dict(cs, group=g, particle=i))
-                    if not ok:
-                        continue
-                    r = rows[0]
-                    if exp_dates is not None and "date" in res:
-                        ctx.oracle(res["date"][r] == exp_dates[i], "C01.row_integrity", SITE,
-                                   "particle %d of group %d has date %r, its release time is %r" % (i, g, res["date"][r], exp_dates[i]), dict(cs, group=g, particle=i))
-                    if forms[g] == "point" and ("longitude" in res or "latitude" in res):
-                        # (a `columns` selection may hold only one of the two coordinates)
-                        ctx.oracle(("longitude" not in res or res["longitude"][r] == conf["location"][0]) and
-                                   ("latitude" not in res or res["latitude"][r] == conf["location"][1]),
-                                   "C01.row_integrity", SITE, "particle of a point group has another position", dict(cs, group=g, particle=i))
-                    if polys_g is not None and "longitude" in res and "latitude" in res:
-                        # the position in the row of a particle of group g is a position of group g: inside (or, within
-                        # 1e-11 * coordinate magnitude, on) one of the polygons of its location - same exact test and
-                        # tolerance as in check_feature_join
-                        x, y = res["longitude"][r], res["latitude"][r]
-                        ctx.oracle(any(geom.inside_tol(q, x, y) for q in polys_g), "C01.row_integrity.position_of_other_location", SITE,
-                                   "particle %d of %s group %d has position (lon %r, lat %r), outside every polygon of its group's location" % (
-                                       i, forms[g], g, x, y), dict(cs, group=g, particle=i))
-                    for nm in ("depth", "w", "age", "stage", "id2", "len", "q", "label", "flag", "name", "region", "farmid"):
-                        if nm not in res:
-                            continue
-                        spec = conf.get("attrs", {}).get(nm, conf.get(nm, None))
-                        if spec is None and nm in gjp:
-                            continue        # comes with this group's location (checked by C03 and by check_rows)
-                        if spec is None:
-                            want = 0.0 if nm != "depth" else 0.0
-                            ctx.oracle(res[nm][r] == want, "C01.missing_attr_not_zero", SITE,
-                                       "group %d does not define %s but its particle has %r" % (g, nm, res[nm][r]), dict(cs, group=g, particle=i))
-                        elif isinstance(spec, (list, tuple, np.ndarray)) and len(spec) == conf["num"] and not (len(spec) == 2 and conf["num"] != 2):
-                            ctx.oracle(res[nm][r] == spec[i], "C01.row_integrity", SITE,
-                                       "attribute %s of particle %d of group %d is %r, given %r" % (nm, i, g, res[nm][r], spec[i]), dict(cs, group=g, particle=i))
-                        elif not isinstance(spec, (list, tuple, np.ndarray, dict, str)) and not callable(spec):
-                            ctx.oracle(res[nm][r] == spec, "C01.row_integrity", SITE, "constant attribute %s changed" % nm, dict(cs, group=g, particle=i))
+        judge(ctx, mk, res, spy, groups, forms, glob, fname, total, cs, gj)
         if drv.available:
             try:
                 ps = pieces(mk, groups, glob, seed)
@@ -617,6 +863,7 @@ def _run(ctx, tmp):
                 ctx.disagreement("make_release.pieces", "replaying the group generators raised %r" % (e,), cs); continue
             j = drv.ask("table.make", table_toks(ps, glob.get("columns")))
             pend.append((j, res, cs))
+    _run_reuse(ctx, mk, drv, pend, tmp)
     if drv.available:
         rep = drv.run()
         for j, res, cs in pend:
